@@ -42,6 +42,7 @@ type buildAux struct {
 	OaPanic   string   `json:"oa_panic,omitempty"`
 	JsonErr   string   `json:"json_err,omitempty"`
 	IndentOK  bool     `json:"indent_ok"`
+	IndentCmp bool     `json:"indent_cmp"` // ToJson and ToJsonIndent were both called, in this order
 	IndentErr string   `json:"indent_err,omitempty"`
 }
 
@@ -129,8 +130,9 @@ func execBuild(c *Case) (r workerResult) {
 			}
 		case 'i':
 			var cb bytes.Buffer
-			if json.Compact(&cb, b) == nil && aux.Json != "" {
-				aux.IndentOK = cb.String() == aux.Json
+			if aux.Json != "" {
+				aux.IndentCmp = true
+				aux.IndentOK = json.Compact(&cb, b) == nil && cb.String() == aux.Json
 			}
 		}
 		return string(letter) + ":" + sha(b)
@@ -187,6 +189,9 @@ func orderedKeys(raw json.RawMessage) []string {
 
 // shapeMonitor: C04 — JDoc Exchange 2.0.0 shape
 func shapeMonitor(a *buildAux) string {
+	if a.Json == "" && a.JsonErr == "" {
+		return "" // ToJson was not part of this accessor sequence
+	}
 	if a.JsonErr != "" {
 		return "the build succeeded but ToJson fails: " + a.JsonErr
 	}
@@ -200,7 +205,7 @@ func shapeMonitor(a *buildAux) string {
 	if err := json.Unmarshal([]byte(a.Json), &top); err != nil {
 		return "ToJson output is not valid JSON: " + err.Error()
 	}
-	if !a.IndentOK {
+	if a.IndentCmp && !a.IndentOK {
 		return "ToJson and ToJsonIndent differ beyond whitespace"
 	}
 	for _, k := range []string{"tags", "interactions", "jsight", "jdocExchangeVersion"} {
